@@ -1,12 +1,10 @@
-(* GenGuardProofs.v — the guarded-by obligations hold on the skeletons regenerated from /repo. *)
+(* GenGuardProofs.v — a guarded-by obligation that the computation accepts holds for every trace (generic part); the
+   computation is run per property in GenGuardC11.v, GenGuardC13.v, GenGuardC17.v. *)
 From Coq Require Import NArith List Bool String.
 From SigM Require Import LockTrace CallOrder.
 From SigG Require Import GenGuard.
 From SigP Require Import CallOrderProofs GenGuardCheck.
 Import ListNotations.
-
-Theorem gb_all_checked : gb_all_ok = true.
-Proof. vm_compute. reflexivity. Qed.
 
 Lemma filter_nil_all' : forall (A : Type) (f : A -> bool) (l : list A),
   filter f l = [] -> forall x, In x l -> f x = false.
@@ -43,28 +41,13 @@ Proof.
     exact (held_checked gb_fuel l v s Ea t o Hexec).
 Qed.
 
-Theorem gb_rules_hold : forall r, In r gb_rules -> grule_holds r.
+Definition grules_ok (l : list grule) : bool :=
+  forallb (fun r => match check_grule r with Some [] => true | _ => false end) l.
+
+Theorem grules_ok_hold : forall l, grules_ok l = true -> forall r, In r l -> grule_holds r.
 Proof.
-  intros r Hin. apply check_grule_nil.
-  pose proof gb_all_checked as Hok. unfold gb_all_ok in Hok.
-  destruct gb_report as [|x l] eqn:Er; [|discriminate Hok].
-  unfold gb_report in Er.
-  pose proof (filter_nil_all' _ _ _ Er (g_id r, check_grule r)) as Hf.
-  assert (Hin' : In (g_id r, check_grule r) (map (fun r0 => (g_id r0, check_grule r0)) gb_rules)).
-  { apply in_map_iff. exists r. split; [reflexivity | exact Hin]. }
-  specialize (Hf Hin'). cbn [snd] in Hf.
-  destruct (check_grule r) as [[|y ys]|]; [reflexivity | discriminate Hf | discriminate Hf].
+  intros l H r Hin. apply check_grule_nil.
+  unfold grules_ok in H. rewrite forallb_forall in H. specialize (H r Hin).
+  destruct (check_grule r) as [[|y ys]|]; [reflexivity | discriminate H | discriminate H].
 Qed.
-Print Assumptions gb_rules_hold.
-
-Lemma in_gb_rules : forall r, In r c11_grules \/ In r c13_grules \/ In r c17_grules -> In r gb_rules.
-Proof. intros r H. unfold gb_rules. repeat rewrite in_app_iff. tauto. Qed.
-Theorem gb_C11_rules_hold : forall r, In r c11_grules -> grule_holds r.
-Proof. intros r H. apply gb_rules_hold, in_gb_rules. tauto. Qed.
-Theorem gb_C13_rules_hold : forall r, In r c13_grules -> grule_holds r.
-Proof. intros r H. apply gb_rules_hold, in_gb_rules. tauto. Qed.
-Theorem gb_C17_rules_hold : forall r, In r c17_grules -> grule_holds r.
-Proof. intros r H. apply gb_rules_hold, in_gb_rules. tauto. Qed.
-
-Example grules_counts : List.length c11_grules = 5%nat /\ List.length c13_grules = 1%nat /\ List.length c17_grules = 1%nat.
-Proof. vm_compute. repeat split. Qed.
+Print Assumptions grules_ok_hold.
